@@ -384,6 +384,23 @@ class RenderContext:
             finally:
                 self.loops.pop()
 
+    @contextmanager
+    def loop_carry(self, length: int) -> Iterator[RenderContext]:
+        """Count _length_ repetitions of a block towards the loop iteration limit.
+
+        For tags that render a block or partial template once per item without
+        pushing a `ForLoop` onto the loop stack. For the duration of the `with`
+        block, _length_ is carried just like iterations inherited from a parent
+        context, so nested loops, partial templates and macros are measured
+        against the product of all enclosing loop lengths.
+        """
+        carry = self.loop_iteration_carry
+        self.loop_iteration_carry = carry * length
+        try:
+            yield self
+        finally:
+            self.loop_iteration_carry = carry
+
     def parentloop(self) -> Union[Undefined, object]:
         """Return the last ForLoop object from the loop stack."""
         try:
